@@ -3,6 +3,9 @@
 import json, subprocess
 ALL = ["C%02d" % i for i in range(1, 21)]
 CLAIMED = {
+ "C01": dict(level="exploration", technique="differential runtime oracle over generated operation histories: real dispatch (FindRules.Do / ProcessEvent, indexed and linear state, with parents) vs a reference location model + brute-force matcher",
+   text="After every step of generated add/replace/remove/overwrite/enable/clear histories a batch of events derived from current and former `when` patterns is dispatched through the real location and compared (ids and binding sets) with the model; held-on-K-observations assurance for a for-all-histories claim.",
+   note="Trusts lib/ref (matcher + location model); only the documented {when:{pattern}} rule form; bindings compared with arrays as sets; three open known findings are classified by input shape.", ref="§5 C01"),
  "C05": dict(level="exploration", technique="differential runtime oracle: core.Match vs an independent brute-force reference matcher on generated inputs, plus a non-mutation monitor",
    text="Every generated (pattern, data, initial bindings, Go typing) case is executed on the real matcher and compared as a set of bindings with a 60-line reference enumerator; held-on-K-cases assurance, the right level for a for-all-inputs claim about a dependency-backed function that cannot be enumerated.",
    note="Trusts lib/ref.Match as the specification and the generator's fragment; the sheens repeated-variable behaviour is an open known finding judged through a named relaxed model (MatchLoose).", ref="§5 C05"),
